@@ -442,6 +442,48 @@ pub struct SplitOut {
   pub runes: Vec<(u32, AmountSel)>,
 }
 
+/// One way in which a generated offer deviates from a valid one (C24).
+#[derive(Clone, Debug, PartialEq, Eq, Serialize, Deserialize)]
+pub enum OfferFlaw {
+  /// a second wallet output among the inputs: a cardinal one
+  ExtraWalletCardinal,
+  /// … one that holds another inscription
+  ExtraWalletInscribed,
+  /// the wallet output holds two or more inscriptions
+  SellerHoldsSeveral,
+  /// the wallet output holds runes as well
+  SellerHoldsRunes,
+  /// the wallet output holds no inscription
+  SellerCardinal,
+  /// no wallet output at all
+  NoWalletInput,
+  /// `--amount` differs from what the wallet really receives
+  AmountOff(i64),
+  /// `--inscription` names another inscription of the wallet
+  OtherInscription,
+  /// the k-th foreign input is not signed
+  BuyerUnsigned(u8),
+  /// the wallet's input arrives already "signed"
+  SellerPresigned,
+  /// the payment goes to a foreign script (the wallet receives nothing)
+  PaymentElsewhere,
+}
+
+/// What the node's signing replies do to the offer (C24).
+#[derive(Clone, Copy, Debug, PartialEq, Eq, Serialize, Deserialize)]
+pub enum SignFault {
+  /// walletprocesspsbt replaces the signature of a foreign input
+  AlterOnProcess,
+  /// finalizepsbt returns a transaction with a changed foreign signature
+  AlterOnFinalize,
+  /// finalizepsbt moves a foreign witness signature into the script sig
+  MoveToScriptSig,
+  /// finalizepsbt returns a transaction with one more input
+  ExtraInput,
+  /// finalizepsbt returns a transaction with the last input dropped
+  DropInput,
+}
+
 /// A wallet command, resolved against the chain state at execution time
 /// (runes and recipients are selectors).
 #[derive(Clone, Debug, PartialEq, Eq, Serialize, Deserialize)]
@@ -470,6 +512,24 @@ pub enum WalletCmd {
     delegate: Option<u32>,
     metadata: bool,
     fee_rate: u32,
+  },
+  /// `wallet offer accept` of a PSBT presented by a counterparty
+  Accept {
+    /// which wallet output of the wanted class is offered (modulo)
+    seller: u32,
+    /// foreign inputs (selectors into the unspent outputs the wallet does not own)
+    buyers: Vec<u32>,
+    /// a foreign input signed in the script sig instead of the witness
+    buyer_scriptsig: Option<u8>,
+    /// position of the wallet input among the inputs (modulo)
+    seller_pos: u8,
+    price: u64,
+    flaws: Vec<OfferFlaw>,
+    sign_fault: Option<SignFault>,
+    dry_run: bool,
+    /// additional wallet inputs arrive with something in their signature field
+    #[serde(default)]
+    extra_signed: bool,
   },
 }
 
